@@ -24,7 +24,7 @@ ASSUMPTIONS = ["members added to a class after decoration and C-implemented desc
 COS = [(True, False), (False, True), (True, True)]
 NAMES = ["pub", "_prot", "__priv", "__len__", "__call__", "__eq__", "__getattr__", "__repr__", "__str__", "prop", "_prot_prop",
          "static", "classm", "wo_prop", "__unm", "__setattr__"]
-KIND = {"__unm": "function", "pub": "function", "other_pub": "function", "_prot": "function", "__priv": "function", "__len__": "function",
+KIND = {"static0": "staticmethod", "classm0": "classmethod", "apub": "function", "__unm": "function", "pub": "function", "other_pub": "function", "_prot": "function", "__priv": "function", "__len__": "function",
         "__call__": "function", "__eq__": "function", "__getattr__": "function", "__repr__": "function", "__str__": "function",
         "prop": "property", "_prot_prop": "property", "wo_prop": "property", "ro_prop": "property", "ro_prop_setter": "property", "static": "staticmethod", "classm": "classmethod", "__setattr__": "function"}
 REALNAME = {"__priv": "_L0__priv"}
@@ -38,10 +38,10 @@ def sel_cases():
                     for with_setattr in (False, True):
                         names = [n for n in NAMES if with_setattr or n != "__setattr__"]
                         if split == 0:
-                            levels = [{"mode": mode, "members": names + ["ro_prop"], "invs": [list(a)] + ([list(b)] if b else []), "init": True}]
+                            levels = [{"mode": mode, "members": names + ["ro_prop", "static0", "classm0", "apub"], "invs": [list(a)] + ([list(b)] if b else []), "init": True}]
                         else:
                             cut = 7
-                            levels = [{"mode": mode, "members": names[:cut] + ["ro_prop"], "invs": [list(a)], "init": True},
+                            levels = [{"mode": mode, "members": names[:cut] + ["ro_prop", "static0", "classm0", "apub"], "invs": [list(a)], "init": True},
                                       {"mode": mode, "members": names[cut:] + ["other_pub", "ro_prop_setter"],
                                        "invs": ([list(b)] if b else []) if split == 1 else [], "init": False}]
                             if split == 2 and b:
@@ -161,7 +161,7 @@ def spec(case, mo, io):
         if n in ("prop_set", "wo_prop", "ro_prop_setter") and setattr_guarded:
             exp = sa + sa
         elif n in ("pub", "other_pub", "__len__", "__call__", "__eq__", "__getattr__", "__str__", "prop", "prop_set", "wo_prop",
-                   "ro_prop", "ro_prop_setter"):
+                   "ro_prop", "ro_prop_setter", "apub"):
             exp = (call + call) if _processed(case, src) else None
         elif n == "__setattr__":
             exp = (sa + sa) if _processed(case, n) else None
